@@ -11,11 +11,13 @@ import (
 
 	"github.com/go-logr/logr"
 	"github.com/klauspost/compress/s2"
+	"github.com/pckhoi/meow"
 	apiutils "github.com/wrgl/wrgl/pkg/api/utils"
 	"github.com/wrgl/wrgl/pkg/encoding/packfile"
 	"github.com/wrgl/wrgl/pkg/objects"
 
 	"verif/mc"
+	"verif/model"
 	"verif/stores"
 )
 
@@ -393,6 +395,165 @@ func c17Short(c *mc.Ctx) {
 	}
 }
 
+// hostile object sequences: every sequence of up to 4 objects from an alphabet of well-formed
+// but mutually inconsistent objects (ragged / empty / wide blocks, tables recording another
+// block's index sum, a wrong row count, a key index beyond the columns, commits over them).
+type hostileObj struct {
+	name string
+	typ  int
+	b    []byte
+}
+
+var hostileAlphabetCache []hostileObj
+
+func hostileAlphabet() []hostileObj {
+	if hostileAlphabetCache != nil {
+		return hostileAlphabetCache
+	}
+	enc := objects.NewStrListEncoder(true)
+	rawBlock := func(rows [][]string) []byte {
+		return mustBytes(func(w io.Writer) error { _, err := objects.WriteBlockTo(enc, w, rows); return err })
+	}
+	honest := [][]string{{"1", "q", "w"}, {"2", "a", "s"}, {"3", "z", "x"}}
+	blocks := map[string][]byte{
+		"B-honest": rawBlock(honest),
+		"B-ragged": rawBlock([][]string{{"1", "q", "w"}, {"2"}, {"3", "z", "x"}}),
+		"B-empty":  rawBlock([][]string{}),
+		"B-wide":   rawBlock([][]string{{"1", "q", "w", "extra"}, {"2", "a", "s", "extra"}}),
+	}
+	idx, err := objects.IndexBlock(objects.NewStrListEncoder(true), meow.New(0), honest, []uint32{0})
+	if err != nil {
+		panic(err)
+	}
+	idxBytes := mustBytes(func(w io.Writer) error { _, err := idx.WriteTo(w); return err })
+	honestIdxSum := model.Hash(idxBytes)
+	var out []hostileObj
+	for _, n := range []string{"B-honest", "B-ragged", "B-empty", "B-wide"} {
+		out = append(out, hostileObj{n, packfile.ObjectBlock, s2.EncodeBetter(nil, blocks[n])})
+	}
+	mkTable := func(name, blk string, rows uint32, pk []uint32) {
+		t := objects.NewTable([]string{"a", "b", "c"}, pk)
+		t.RowsCount = rows
+		if rows > 0 {
+			t.Blocks = [][]byte{model.Hash(blocks[blk])}
+			t.BlockIndices = [][]byte{honestIdxSum}
+		}
+		out = append(out, hostileObj{name, packfile.ObjectTable, mustBytes(func(w io.Writer) error { _, err := t.WriteTo(w); return err })})
+	}
+	mkTable("T-honest", "B-honest", 3, []uint32{0})
+	mkTable("T-over-ragged", "B-ragged", 3, []uint32{0})
+	mkTable("T-over-empty", "B-empty", 1, []uint32{0})
+	mkTable("T-over-wide", "B-wide", 2, []uint32{0})
+	mkTable("T-wrong-count", "B-honest", 200, []uint32{0})
+	mkTable("T-pk-out-of-range", "B-honest", 3, []uint32{7})
+	mkTable("T-keyless-over-ragged", "B-ragged", 3, nil)
+	tblSum := model.Hash(out[4].b)
+	com := &objects.Commit{Table: tblSum, AuthorName: "a", AuthorEmail: "b", Message: "m", Time: time.Unix(1700000000, 0).UTC()}
+	out = append(out, hostileObj{"C-honest", packfile.ObjectCommit, mustBytes(func(w io.Writer) error { _, err := com.WriteTo(w); return err })})
+	orphan := &objects.Commit{Table: tblSum, AuthorName: "a", AuthorEmail: "b", Message: "child", Time: time.Unix(1700000001, 0).UTC(), Parents: [][]byte{bytes.Repeat([]byte{0x77}, 16)}}
+	out = append(out, hostileObj{"C-missing-parent", packfile.ObjectCommit, mustBytes(func(w io.Writer) error { _, err := orphan.WriteTo(w); return err })})
+	hostileAlphabetCache = out
+	return out
+}
+
+func c17Objects(c *mc.Ctx) {
+	alpha := hostileAlphabet()
+	maxLen := 3
+	if c.Thorough() {
+		maxLen = 4
+	}
+	n := 1 + c.Choose(maxLen)
+	seq := make([]int, n)
+	for i := range seq {
+		seq[i] = c.Choose(len(alpha))
+	}
+	onePack := c.Choose(2) == 1
+	prepop := c.Choose(2) == 1 // the store already received the honest block and table
+	c.Shard()
+	var names []string
+	for _, i := range seq {
+		names = append(names, alpha[i].name)
+	}
+	desc := fmt.Sprintf("objects %v in %s (honest block+table received before: %v)", names, map[bool]string{true: "one packfile", false: "one packfile per object"}[onePack], prepop)
+	c.Logf("%s", desc)
+	db := stores.NewMemStore()
+	accepted := map[string]bool{}
+	hook := apiutils.WithReceiverSaveObjectHook(func(objType int, sum []byte) {
+		switch objType {
+		case packfile.ObjectTable:
+			accepted["tbl/"+string(sum)] = true
+		case packfile.ObjectCommit:
+			accepted["com/"+string(sum)] = true
+		}
+	})
+	rec := apiutils.NewObjectReceiver(db, [][]byte{bytes.Repeat([]byte{1}, 16)}, logr.Discard(), hook)
+	feed := func(objs []hostileObj) bool {
+		var buf bytes.Buffer
+		pw, _ := packfile.NewPackfileWriter(&buf)
+		for _, o := range objs {
+			pw.WriteObject(o.typ, o.b)
+		}
+		pr, err := packfile.NewPackfileReader(io.NopCloser(bytes.NewReader(buf.Bytes())))
+		if err != nil {
+			panic(err)
+		}
+		before := heapAllocs()
+		var rerr error
+		if p, st := mc.Try(func() { _, rerr = rec.Receive(pr, nil) }); p != nil {
+			c.Fail("panic:ObjectReceiver.Receive(object sequence)", "ObjectReceiver.Receive panicked: %v; %s\n%s", p, desc, firstLinesOf(st, 12))
+			return false
+		}
+		if a := heapAllocs() - before; a > uint64(64*buf.Len())+4<<20 {
+			c.Fail("alloc:ObjectReceiver.Receive(object sequence)", "Receive allocated %d bytes for a %d-byte packfile; %s", a, buf.Len(), desc)
+			return false
+		}
+		for _, k := range db.Keys() {
+			if (strings.HasPrefix(k, "tbl/") || strings.HasPrefix(k, "com/")) && !accepted[k] {
+				c.Fail("receive-leaves-unusable", "%s %x is in the store although the receiver never reported it as saved (Receive returned %v); %s", k[:3], k[4:], rerr, desc)
+				return false
+			}
+			if strings.HasPrefix(k, "com/") {
+				if cm, e := objects.GetCommit(db, []byte(k[4:])); e == nil {
+					for _, p := range cm.Parents {
+						if !objects.CommitExist(db, p) {
+							c.Fail("receive-leaves-unusable", "commit stored while its parent is missing; %s", desc)
+							return false
+						}
+					}
+				}
+			}
+		}
+		return true
+	}
+	var objs []hostileObj
+	for _, i := range seq {
+		objs = append(objs, alpha[i])
+	}
+	ok := true
+	if prepop {
+		ok = feed([]hostileObj{alpha[0], alpha[4]})
+	}
+	if !ok {
+		return
+	}
+	if onePack {
+		ok = feed(objs)
+	} else {
+		for _, o := range objs {
+			if ok = feed([]hostileObj{o}); !ok {
+				break
+			}
+		}
+	}
+	c.Outcome(fmt.Sprintf("stored%d-ok=%v", db.Len(), ok))
+	if n >= 2 {
+		c.Nontrivial(desc)
+	}
+	if c.WantSample() && n == 3 && seq[0] == 0 && seq[2] >= 4 {
+		c.Sample(desc)
+	}
+}
+
 func init() {
 	register(&mc.Check{
 		ID:    "C17",
@@ -400,11 +561,13 @@ func init() {
 		Rule: "complete edit-distance-1 neighbourhood of every valid encoding in the seed corpus (commits, tables, blocks, block indices, profiles, list sequences, pkt-lines, packfiles, s2-compressed block / block index, a real sender packfile): truncation at every offset; at every offset every replacement from {00,01,7f,80,ff,b+-1,b xor 2^i}; " +
 			"2- and 4-byte big-endian overwrites with {0,1,255,256,ffff,7fff(ffff),ffffffff,len,len+-1} at every offset; one-byte insertion of {00,ff,space,newline} and deletion at every offset; plus ALL byte strings of length <= 2 and all strings of length 3..4 over {00,01,80,ff,P,space,newline} (also ff-padded) for every entry point " +
 			"(ReadCommitFrom, ReadTableFrom, ReadBlockFrom, ValidateBlockBytes, ReadBlockIndex, TableProfile.ReadFrom, StrListDecoder.Read/ReadBytes, UintListDecoder.Read, ReadPktLine, PackfileReader, Get* on a store holding the bytes, ObjectReceiver.Receive into an empty and a pre-populated store). " +
+			"plus every sequence of 1..3 (thorough 4) objects from an alphabet of 13 well-formed but mutually inconsistent packfile objects (honest / ragged / empty / wide blocks; tables over them recording another block's index sum, a wrong row count, a key index beyond the columns; commits incl. one with a missing parent) fed to one receiver, in one packfile or one per object. " +
 			"Oracle: returns without panic; reads <= 4*len+64; heap bytes allocated during the call <= 64*len + 1 MiB; after Receive every table key present is fully usable and every commit has its parents. Workers run under ulimit -v so a runaway allocation is a captured crash. " +
 			"evaluations = (seed, mutation family) cases; counter hostile_inputs = decodes; non-trivial/distinct = (seed, family) or (entry point, length class)",
 		Assumptions: []string{"byte strings further than one edit from a valid encoding are only covered up to length 4", "allocation is measured as the runtime's cumulative heap-allocation counter around the call in a single-goroutine worker"},
 		Harnesses: []*mc.Harness{
 			{Name: "mutations", Body: c17Mutations, MemKB: 8 << 20, Procs: 1, Budget: map[string]time.Duration{"quick": 60 * time.Second, "thorough": 10 * time.Minute}},
+			{Name: "hostile-object-sequences", Body: c17Objects, MemKB: 8 << 20, Procs: 1, Budget: map[string]time.Duration{"quick": 60 * time.Second, "thorough": 10 * time.Minute}},
 			{Name: "short-strings", Body: c17Short, MemKB: 8 << 20, Procs: 1, Budget: map[string]time.Duration{"quick": 60 * time.Second, "thorough": 10 * time.Minute}},
 		},
 	})
